@@ -34,7 +34,7 @@ Present(c) == {p \in 1..Len(c.inputs) : c.inputs[p].dtype # "none"}
 OneBased(s) == {s[i] + 1 : i \in DOMAIN s}
 
 Sig13(kind) == [prop |-> "C13", rel |-> e.mode, op |-> cur.op, kind |-> kind, cls |-> cur.cls,
-                owned |-> e.owned, dt |-> cur.dt]
+                owned |-> e.owned, dt |-> cur.dt, present |-> cur.present, vals |-> cur.vals]
 
 Run13 ==
   /\ e.ev = "run" /\ cur.prop = "C13"
